@@ -87,10 +87,15 @@ def run(ctx):
             pool = [c for c in NONASCII if c in CP1252_OK]
             body = ''.join(rng.choice(pool + ['a', ' ']) for _ in range(n))
             progs.append(('lexical-error-tail', f'PROGRAM N8600\nVAR\n  N8601 : INT;\nEND_VAR\nN8601 := 1;\nEND_PROGRAM\n{opener}{body}'))
+    # programs with a syntax error after non-ASCII text (the position of the diagnostic must not depend on the encoding,
+    # for `echo` as for `check`)
+    for i in range(3 if ctx.quick() else 20):
+        pool = [c for c in NONASCII if c in CP1252_OK]
+        progs.append(('syntax-error', f"PROGRAM N8700\nVAR\n  N8701 : INT;\nEND_VAR\n(* {rng.choice(pool)}{rng.choice(pool)} *) N8701 := '{rng.choice(pool)}' + + ;\nEND_PROGRAM\n"))
     jobs = []
     for pi, (kind, txt) in enumerate(progs):
         for enc, data in encodings(txt).items():
-            for action in ('check', 'tokenize'):
+            for action in ('check', 'tokenize', 'echo'):
                 jobs.append(('enc', pi, enc, action, data))
     # ---------------- (b) every byte in four contexts
     ctxs = {'comment': (b'(* a', b'b *) x := 1;'), 'string': (b"s := 'a", b"b';"), 'between': (b'x :=', b'1;'), 'identifier': (b'ab', b'cd := 1;')}
@@ -133,7 +138,7 @@ def run(ctx):
         # oracle (a): identical result in every encoding
         if stream == 'enc':
             ctx.count(f'encoding:{b}')
-            sig = (r['rc'], tuple(sorted(r['diags'])), tuple(tok_lines(r['stdout'])) if action == 'tokenize' else None)
+            sig = (r['rc'], tuple(sorted(r['diags'])), tuple(tok_lines(r['stdout'])) if action == 'tokenize' else (r['stdout'] if action == 'echo' else None))
             key = (a, action)
             if key not in ref: ref[key] = (sig, b)
             elif ref[key][0] != sig:
